@@ -1,7 +1,8 @@
 """Shared by C01 / C12 (and C03, C19): run the real generators under the RNG tap, build driver requests, compare model and
 implementation bit for bit, and judge the implementation's output with plain-Python oracles written from the property text."""
 from __future__ import annotations
-import warnings
+import warnings, zlib
+import random as pyrandom
 import numpy as np
 from tap import Tap, ratio
 
@@ -40,13 +41,71 @@ def random_case(rng, maxn=8):
             if isinstance(kw.get(k), float): kw.pop(k)
     if gen != "wilson" and rng.random() < 0.35:
         kw["start_coord"] = (rng.randrange(r), rng.randrange(c))
+        # about 8% of these: a start_coord OUTSIDE the grid (one past an edge, negative, far away) or not a pair at all: the
+        # generators must reject it with ValueError (`_random_start_coord`), never return a maze built from it.
+        # Decided by a side RNG derived from the case drawn so far, so that the main case stream is the same as without this.
+        side = pyrandom.Random(zlib.crc32(repr((gen, r, c, sorted((k, str(v)) for k, v in kw.items()))).encode()) ^ rng.getstate()[1][0])
+        if side.random() < 0.08:
+            kw["start_coord"] = side.choice(outside_starts(side, r, c))
     if gen in ("percolation", "dfs_percolation"):
         kw["p"] = rng.choice([0, 0.0, 0.1, 0.4, 0.7, 1.0, 1, round(rng.random(), 2)])
     return dict(gen=gen, rows=r, cols=c, kwargs=kw)
 
 
+def outside_starts(rng, r, c):
+    return [(r, 0), (-1, 0), (0, c), (0, -1), (r + 3, c + 3), (r, rng.randrange(c)), (rng.randrange(r), c),
+            (-1 - rng.randrange(3), rng.randrange(c)), (rng.randrange(r), -1 - rng.randrange(3)), (1,), (1, 1, 1), (0, 0, 0)]
+
+
+def start_outside(case) -> str | None:
+    """from the property text, independent of model and code: is the given start_coord NOT a cell of the grid?
+    returns the kind ('not_a_pair' | 'outside_grid') or None when there is no start_coord / it is a grid cell"""
+    sc = case["kwargs"].get("start_coord")
+    if sc is None: return None
+    sc = [int(x) for x in sc]
+    if len(sc) != 2: return "not_a_pair"
+    if 0 <= sc[0] < case["rows"] and 0 <= sc[1] < case["cols"]: return None
+    return "outside_grid"
+
+
+def exc_kind(e) -> str:
+    for k in (ValueError, AssertionError, IndexError, KeyError):
+        if isinstance(e, k): return k.__name__
+    return "other:" + type(e).__name__
+
+
 class GeneratorRaised(Exception):
-    pass
+    kind = "other"; draws = (); rands = ()
+
+
+def judge_raise(case, e: "GeneratorRaised") -> str | None:
+    """a generator call raised: acceptable ONLY as a ValueError for a start_coord that is not a cell of the grid, raised
+    before any random number was consumed; everything else is a violation (text returned)"""
+    so = start_outside(case)
+    if so is None:
+        return f"raised instead of returning a maze: {e}"
+    if e.kind != "ValueError":
+        return f"start_coord {case['kwargs']['start_coord']} is not a cell of the {case['rows']}x{case['cols']} grid ({so}) but the generator raised {e.kind} instead of ValueError: {e}"
+    if e.draws or e.rands:
+        return f"start_coord {case['kwargs']['start_coord']} rejected only after consuming random numbers (draws {list(e.draws)[:10]}, {len(e.rands)} rands)"
+    return None
+
+
+def judge_returned_for_outside(case, impl) -> str | None:
+    """a maze was RETURNED: a violation whenever the given start_coord is not a cell of the grid (the unrepaired behaviour)"""
+    so = start_outside(case)
+    if so is None: return None
+    r, c = case["rows"], case["cols"]
+    detail = wellformed(r, c, impl) or "all stored connections stay inside the array"
+    n_e, vis = len(impl["edges"]), impl.get("visited")
+    extra = ""
+    if vis is not None:
+        ph = [v for v in vis if len(v) != 2 or not (0 <= v[0] < r and 0 <= v[1] < c)]
+        if ph: extra += f"; visited_cells contains the phantom cell(s) {ph[:3]}"
+    if impl.get("fully_connected") is True and len(reach_from(adj_map(r, c, impl["edges"]), (0, 0))) != r * c:
+        extra += "; fully_connected=True although some cell is unreachable"
+    return (f"start_coord {list(case['kwargs']['start_coord'])} is not a cell of the {r}x{c} grid ({so}) but the generator returned a maze "
+            f"instead of raising ValueError: {detail} ({n_e} connections, start_coord in meta {impl.get('start')}){extra}")
 
 
 def edge_rands(rng, p):
@@ -69,7 +128,9 @@ def run_impl(case, script=None, rand_script=None):
         try:
             m = f(shape, **case["kwargs"])
         except Exception as e:
-            raise GeneratorRaised(f"{type(e).__name__}: {str(e)[:200]} (draws so far {t.draws[:60]})") from e
+            g = GeneratorRaised(f"{type(e).__name__}: {str(e)[:200]} (draws so far {t.draws[:60]})")
+            g.kind, g.draws, g.rands = exc_kind(e), list(t.draws), list(t.rands)
+            raise g from e
     gm = m.generation_meta
     vis = gm.get("visited_cells")
     impl = dict(
@@ -77,12 +138,12 @@ def run_impl(case, script=None, rand_script=None):
         draws=list(t.draws), rands=list(t.rands), arities=list(t.arities),
         meta_keys=sorted(gm.keys()), func_name=gm.get("func_name"),
         fully_connected=(bool(gm["fully_connected"]) if "fully_connected" in gm else None),
-        visited=(sorted([int(a), int(b)] for a, b in vis) if vis is not None else None),
+        visited=(sorted([int(x) for x in v] for v in vis) if vis is not None else None),
         start=([int(x) for x in gm["start_coord"]] if "start_coord" in gm else None),
         n_accessible_cells=gm.get("n_accessible_cells"), max_tree_depth=gm.get("max_tree_depth"),
     )
     try:
-        impl["component"] = sorted([int(a), int(b)] for a, b in m.get_connected_component())
+        impl["component"] = sorted([int(x) for x in v] for v in m.get_connected_component())
     except ValueError as e:
         impl["component"] = "ValueError"
     return impl, m
@@ -103,11 +164,23 @@ def request(case, impl):
     return rq
 
 
+REJECT_REASON = {"outside_grid": "start_outside_grid", "not_a_pair": "start_wrong_length"}
+
+
 def compare(case, impl, o) -> list[str]:
-    """exact agreement of model and implementation"""
+    """exact agreement of model and implementation; `impl = {"rejected": True, ...}` when the real code raised ValueError
+    for its start_coord: then the model must be in its error branch BECAUSE OF THE START (driver reason), and vice versa"""
     bad = []
     if "error" in o: return [f"driver error: {o['error']}"]
-    if not o.get("ok"): return ["model run did not complete on the recorded draws (none)"]
+    if impl.get("rejected"):
+        want = REJECT_REASON[start_outside(case)]
+        if o.get("ok"): return [f"real code raised ValueError for start_coord {case['kwargs'].get('start_coord')} but the model returned a maze {sorted(o['edges'])[:8]}"]
+        if o.get("reason") != want: return [f"real code raised ValueError for start_coord {case['kwargs'].get('start_coord')}; model returned none for reason {o.get('reason')!r}, expected {want!r}"]
+        return []
+    if not o.get("ok"):
+        if o.get("reason") in REJECT_REASON.values():
+            return [f"model rejects start_coord {case['kwargs'].get('start_coord')} ({o.get('reason')} = ValueError branch) but the real code returned a maze"]
+        return [f"model run did not complete on the recorded draws (none, reason {o.get('reason')})"]
     if sorted(o["edges"]) != impl["edges"]: bad.append(f"connection bits differ: model {sorted(o['edges'])} impl {impl['edges']}")
     if "leftover" in o and o["leftover"] != 0: bad.append(f"model left {o['leftover']} recorded draws unused")
     if impl["visited"] is not None and "visited" in o and sorted(o["visited"]) != impl["visited"]:
